@@ -340,6 +340,12 @@ fn cmd_gen_cases(m: &HashMap<String, String>) {
         }
         return;
     }
+    if kind == "large" {
+        for case in cases::large_cases(&mut rng) {
+            writeln!(out, "{}", case).unwrap();
+        }
+        return;
+    }
     if kind == "bigcount" {
         for case in cases::bigcount_cases() {
             writeln!(out, "{}", case).unwrap();
